@@ -42,6 +42,10 @@ def confirm(prop, f, cldr):
         payload["how_to_replay"] = "%s eval %s" % (hostrun.HOST_BIN, f.case.dir)
         path = report.write_replay(prop, name, payload)
         return ("confirmed" if ok else "not_reproduced"), path
+    if f.kind == "native_validation_differs":
+        payload.update(f.detail)
+        payload["how_to_replay"] = "lib/replay.py run_requests(%r, [request])" % f.case.dir
+        return "confirmed", report.write_replay(prop, name, payload)
     if f.kind != "text_differs":
         path = report.write_replay(prop, name, payload)
         return "unreplayable", path
@@ -72,27 +76,55 @@ def confirm(prop, f, cldr):
             fv = n["v"]
             n["shown"] = str(int(fv)) if fv == fv and abs(fv) < 1e15 and fv == int(fv) else repr(fv)
     # map the solver's locale name (enum ident) and build the request
-    macro = "td_display" if f.flavour == "display" else "td_string"
+    is_view = f.flavour == "view" or (f.flavour or "").endswith("_view")
+    macro = "td_display" if f.flavour == "display" else ("td_view" if is_view else "td_string")
+    if is_view:
+        env["comp_tag"] = "span"
     hostpath = hk.get("path", f.key)
     req = {"locale": m["locale"], "path": hostpath, "fields": fields, "strings": env["strings"],
            "nums": {k: {"ty": v["ty"], "v": v["v"]} for k, v in nums.items()}, "macro": macro}
     payload["request"] = req
+    # the solver's model fixes the plural category function arbitrarily; under the real CLDR rules another count may be
+    # needed to tell the two sides apart: replay the model's values first, then a few alternative counts
+    variants = [env]
+    plural_fields = [k for k, v in nums.items() if v["ty"] == "plural"]
+    for pf in plural_fields:
+        for cand in (0, 1, 2, 3, 5, 11, 21, 22, 23, 100):
+            e2 = dict(env)
+            e2["nums"] = {k: dict(v) for k, v in nums.items()}
+            e2["nums"][pf]["v"] = cand
+            variants.append(e2)
+    for l in (hk.get("locales_hint") or []):
+        pass
+    reqs = []
+    for e in variants:
+        r = dict(req)
+        r["nums"] = {k: {"ty": v["ty"], "v": v["v"]} for k, v in e["nums"].items()}
+        reqs.append(r)
     try:
-        expected = replay.eval_term(f.ref, env)
-        predicted = replay.eval_term(f.gen, env)
-        actual = replay.run_requests(f.case.dir, [req])[0]
+        actuals = replay.run_requests(f.case.dir, reqs)
+        if is_view:
+            actuals = [replay.normalise_view(a, fields) for a in actuals]
+        triples = []
+        for e, actual in zip(variants, actuals):
+            triples.append((replay.eval_term(f.ref, e), replay.eval_term(f.gen, e), actual))
     except replay.ReplayError as e:
         payload["replay_error"] = str(e)
         path = report.write_replay(prop, name, payload)
         return "unreplayable", path
+    expected, predicted, actual = triples[0]
+    for i, (ex, pr, ac) in enumerate(triples):
+        if ac != pr:
+            expected, predicted, actual = ex, pr, ac
+            payload["request"] = reqs[i]
+            break
+        if ac != ex:
+            expected, predicted, actual = ex, pr, ac
+            payload["request"] = reqs[i]
+            break
     payload.update({"expected_by_reference": expected, "predicted_by_evaluator": predicted, "real_output": actual,
                     "how_to_replay": "cd %s && cargo run  (crate written by lib/replay.py from %s)" % (replay.CRATE, f.case.dir)})
     path = report.write_replay(prop, name, payload)
-    if f.flavour in ("view",) or (f.flavour or "").endswith("_view"):
-        # the view back-end is not what td_string! runs; confirm only if the Display back-end shows it too
-        if actual != expected:
-            return "confirmed", path
-        return "unreplayable", path
     if actual != predicted:
         return "encoder_mismatch", path
     if actual != expected:
@@ -100,8 +132,101 @@ def confirm(prop, f, cldr):
     return "not_reproduced", path
 
 
+def count_candidates(ty):
+    if ty in ("f32", "f64"):
+        return [0.0, 0.5, 2.0, -1.5]
+    if ty == "plural":
+        return [0, 1, 2, 5, 21]
+    if ty.startswith("u"):
+        return [0, 1, 3, 200]
+    return [0, 1, -1, 100]
+
+
+def validate_natively(prop, cases, results, cldr, limit):
+    """Concrete runs of the real crate (one process per project, every key x locale x a few arguments) against
+    (a) the evaluator's term evaluated concretely: validates the encoder and the fixed meanings of library calls,
+    (b) the reference denotation evaluated concretely.
+    Returns (n_requests, encoder_mismatches, violations[(case, payload)])."""
+    import smt
+    done_families = set()
+    total = 0
+    mismatches = []
+    violations = []
+    for c in cases:
+        fam = c.tag.split("/")[0]
+        if fam in done_families or len(done_families) >= limit:
+            continue
+        h = results.get(c.dir)
+        if not h or h.get("status") != "ok" or c.expect != "ok":
+            continue
+        proj = c.project
+        reqs, meta = [], []
+        try:
+            leafs = proj.leaf_keys()
+        except Exception:
+            continue
+        for ns, path in leafs:
+            hk = engine_g.host_key(h, ns, path)
+            if not hk or hk.get("kind") not in ("builder", "lit"):
+                continue
+            gen = hk["string"] if hk["kind"] == "builder" else hk["lit"]
+            try:
+                ref = proj.denote_key(ns, path)
+            except Exception:
+                continue
+            if "err" in gen or "fmt_" in json.dumps(gen) or "fmt_" in json.dumps(ref):
+                continue
+            acc = {}
+            smt.collect_num_types(gen, acc)
+            fields = hk.get("fields", [])
+            bounds = hk.get("bounds", {})
+            count_fields = {}
+            for f in fields:
+                b = " ".join(bounds.get("__%s__" % f, []))
+                if "InterpolatePluralCount" in b:
+                    count_fields[f] = "plural"
+                elif "InterpolateRangeCount<" in b:
+                    count_fields[f] = b.split("InterpolateRangeCount<")[1].split(">")[0]
+            combos = [{}]
+            for f, ty in count_fields.items():
+                combos = [dict(cm, **{f: {"ty": ty, "v": v}}) for cm in combos for v in count_candidates(ty)][:8]
+            for loc in h["locales"]:
+                for nums in combos:
+                    strings = {f: "<%s@%s>" % (f, loc) for f in fields if f.startswith("var_") and f not in nums}
+                    env = {"locale": loc, "strings": strings, "nums": {k: dict(v) for k, v in nums.items()}, "cat": cldr.category}
+                    for n in env["nums"].values():
+                        if n["ty"] in ("f32", "f64"):
+                            fv = n["v"]
+                            n["shown"] = ("-0" if (fv == 0 and str(fv).startswith("-")) else str(int(fv))) if fv == int(fv) else repr(fv)
+                    reqs.append({"locale": loc, "path": hk["path"], "fields": fields, "strings": strings,
+                                 "nums": {k: {"ty": v["ty"], "v": v["v"]} for k, v in nums.items()}, "macro": "td_string"})
+                    meta.append((ns, path, env, gen, ref))
+        if not reqs:
+            continue
+        done_families.add(fam)
+        reqs, meta = reqs[:400], meta[:400]
+        try:
+            actuals = replay.run_requests(c.dir, reqs)
+        except replay.ReplayError as e:
+            mismatches.append((c.tag, "replay crate failed: %s" % str(e)[-600:]))
+            continue
+        for r, (ns, path, env, gen, ref), actual in zip(reqs, meta, actuals):
+            total += 1
+            try:
+                predicted = replay.eval_term(gen, env)
+                expected = replay.eval_term(ref, env)
+            except replay.ReplayError:
+                continue
+            if actual != expected:
+                violations.append((c, {"request": r, "real_output": actual, "expected_by_reference": expected, "predicted_by_evaluator": predicted,
+                                       "key": list(path), "ns": ns, "note": "found by native validation (concrete run of the real crate), not by the solver"}))
+            elif actual != predicted:
+                mismatches.append((c.tag, "%s: real %r, evaluator %r" % (".".join(path), actual, predicted)))
+    return total, mismatches, violations
+
+
 def run_property(prop, tier, seed, cases, mode, functions_encoded, bounds, extra_assumptions=(), extra_key_check=None,
-                 side_results=None, level="translation_validation", post=None):
+                 side_results=None, level="translation_validation", post=None, validate=None):
     t0 = time.time()
     try:
         hostrun.build_host()
@@ -112,6 +237,16 @@ def run_property(prop, tier, seed, cases, mode, functions_encoded, bounds, extra
     stats, findings = engine_g.run(prop, cases, flavours_mode=mode, run_name="%s_%s" % (prop, tier), cldr=cldr,
                                    extra_key_check=extra_key_check,
                                    timeout_ms=20000 if tier == "quick" else 60000)
+    if validate is None:
+        validate = 1 if tier == "quick" else 6
+    val_total, val_mismatch, val_viol = (0, [], [])
+    if validate and not findings:
+        val_total, val_mismatch, val_viol = validate_natively(prop, cases, stats.host_results, cldr, validate)
+        for tag, why in val_mismatch:
+            stats.inconclusive.append((tag, "ENCODER-MISMATCH " + why))
+        for c, payload in val_viol[:50]:
+            findings.append(engine_g.Finding(prop, "native_validation_differs", c, key=payload["key"], ns=payload["ns"],
+                                             detail=payload, role=c.roles.get((payload["ns"], tuple(payload["key"]))) or c.roles.get("*")))
     if post is not None:
         findings.extend(post(cases, stats) or [])
     known = report.load_known()
@@ -166,6 +301,7 @@ def run_property(prop, tier, seed, cases, mode, functions_encoded, bounds, extra
         "solver_s": round(stats.solver_s, 3),
         "codegen_ms_total": round(stats.gen_ms, 1),
         "symbolic_eval_ms_total": round(stats.eval_ms, 1),
+        "native_validation_requests": val_total,
         "functions_encoded": functions_encoded,
         "bounds": bounds,
         "known_findings_hit": {k: n for k, (_, n) in known_hits.items()},
